@@ -17,12 +17,13 @@ OkAll(p, pv, e) ==
      [] p = "C05" -> Ok_C05(e) [] p = "C16" -> Ok_C16(e)
      [] p = "X01" -> Ok_X01(e) [] p = "X02" -> Ok_X02(e) [] p = "X03" -> Ok_X03(e)
      [] p = "X04" -> (Rel_X04(e) => FidelityAll(e.ab, e) # "differs")
+     [] p = "X05" -> e.trap = "" /\ FidelityAll(e.ab, e) # "differs"       \* every step of a history returned, with LowSpec's result
      [] OTHER -> OkCore(p, pv, e)
 RelAll(p, pv, e) ==
    CASE p = "C09" -> Rel_C09(e) [] p = "C10" -> Rel_C10(e) [] p = "C11" -> Rel_C11(e) [] p = "C12" -> Rel_C12(e)
      [] p = "C14" -> Rel_C14(e) [] p = "C19" -> Rel_C19(e) [] p = "C20" -> Rel_C20(e)
      [] p = "C05" -> Rel_C05(e) [] p = "C16" -> Rel_C16(e)
-     [] p = "X01" -> Rel_X01(e) [] p = "X02" -> Rel_X02(e) [] p = "X03" -> Rel_X03(e) [] p = "X04" -> Rel_X04(e)
+     [] p = "X01" -> Rel_X01(e) [] p = "X02" -> Rel_X02(e) [] p = "X03" -> Rel_X03(e) [] p = "X04" -> Rel_X04(e) [] p = "X05" -> TRUE
      [] OTHER -> RelCore(p, pv, e)
 JudgeAll(p, pv, e) ==
    IF OkAll(p, pv, e) THEN "ok"
